@@ -185,7 +185,8 @@ func genExhaustive(lease bool, g geoT, univ, depth int, origin string, allFail b
 			for i, o := range s {
 				if i == failAt {
 					o.Fail = true
-					o.Down = (si+failAt)%2 == 1 // the store stays unreachable for the whole call
+					o.Down = (si+failAt)%2 == 1                      // the store stays unreachable for the whole call
+					o.CtxDone = []int{0, 1, 0, 2}[(si/2+failAt+1)%4] // half of the faulted ops: the request context is done
 				}
 				c.Ops = append(c.Ops, o)
 				if failAt == -1 || i == failAt || i == depth-1 {
@@ -229,11 +230,11 @@ func genRandomDist(r *vh.Rng, lease bool, n, maxOps int, guarded bool, origin st
 			x := rr.Intn(100)
 			switch {
 			case x < 26:
-				c.Ops = append(c.Ops, Op{K: "alloc", H: h, Mac: rr.Chance(1, 4), Fail: rr.Chance(1, 5), Down: rr.Bool()})
+				c.Ops = append(c.Ops, Op{K: "alloc", H: h, Mac: rr.Chance(1, 4), Fail: rr.Chance(1, 5), Down: rr.Bool(), CtxDone: []int{0, 1, 0, 2}[rr.Intn(4)]})
 			case x < 40:
-				c.Ops = append(c.Ops, Op{K: "rel", H: h, Fail: rr.Chance(1, 4), Down: rr.Bool()})
+				c.Ops = append(c.Ops, Op{K: "rel", H: h, Fail: rr.Chance(1, 4), Down: rr.Bool(), CtxDone: []int{0, 1, 0, 2}[rr.Intn(4)]})
 			case x < 46:
-				c.Ops = append(c.Ops, Op{K: "renew", H: h, Fail: rr.Chance(1, 4), FailG: rr.Chance(1, 6), Down: rr.Bool()})
+				c.Ops = append(c.Ops, Op{K: "renew", H: h, Fail: rr.Chance(1, 4), FailG: rr.Chance(1, 6), Down: rr.Bool(), CtxDone: []int{0, 1, 0, 2}[rr.Intn(4)]})
 			case x < 52:
 				c.Ops = append(c.Ops, Op{K: "get", H: h})
 			case x < 57:
@@ -316,7 +317,7 @@ func genLeaseOrdered(r *vh.Rng, n int) []Case {
 				c.Ops = append(c.Ops, Op{K: "renew", H: h})
 			}
 			if rr.Chance(1, 3) { // re-Allocate of a subscriber that already holds a lease, Put may fail
-				c.Ops = append(c.Ops, Op{K: "alloc", H: order[rr.Intn(i+1)], Fail: rr.Bool(), Down: rr.Bool()})
+				c.Ops = append(c.Ops, Op{K: "alloc", H: order[rr.Intn(i+1)], Fail: rr.Bool(), Down: rr.Bool(), CtxDone: []int{0, 1, 0, 2}[rr.Intn(4)]})
 			}
 		}
 		c.Ops = append(c.Ops, Op{K: "restart", Ord: order})
